@@ -66,20 +66,23 @@ MANIFEST = dict(
          "well-formed in the target format and its timeline (notes: kind, column, start, end; tempo points) equals the source "
          "file's to within the coarser of the two formats' resolutions at the local tempo (Formats/Timeline.v, Corr/RunC09.v); a "
          "sharper correspondence relation (truncation toward zero / nearest snap, composed from the denotations) catches changes "
-         "that stay inside the resolution. Proved for all inputs (Props/C09.v, 29 closed theorems): the comparison is reflexive, "
+         "that stay inside the resolution. Proved for all inputs (Props/C09.v, 32 closed theorems): the comparison is reflexive, "
          "symmetric, triangular, monotone, order- and shift-invariant and the runner's oracle is sound for it; every adapter maps "
          "the format's own 'same denotation' to 'same timeline'; and the END-TO-END statement for O2Jam -> Quaver by composing "
          "C07's byte-level reader theorem, C08's cast exactness and C06's writer theorem, including that the converted chart lies "
          "in the writer's domain; for the other 15 pairs the generic composition and the Quaver / O2Jam halves are proved and the "
          "statement is named _partial with the missing whole-file theorem (C01, C02/C03, C04/C05) listed. The check found ten defect "
-         "classes of the pinned tree (27 pair:cause keys, each with a minimal file in corpus/C09 and three of them as _refuted "
-         "theorems on the real written files): StepMania #OFFSET not the first tempo point (OsuToSM, QuaToSM), reseated tempo "
-         "lists of StepMania / BMS sources, key count taken from the largest used column, SMToOsu CircleSize, BMS header / sample "
-         "name crashes, duplicate O2Jam tempo at 0 in BMS, two-decimal #BPMS beats, ':.3f' BMS tempos.",
+         "classes of the pinned tree (27 pair:cause keys, each with a minimal file in corpus/C09). Six are repaired in /repo and "
+         "recorded as 'fixed' (a recurrence raises a VIOLATION labelled regression:<key>; reverting any of the commits makes the "
+         "check fire): StepMania #OFFSET not the first timing point (OsuToSM, QuaToSM: cdbdcdf), SMToOsu CircleSize (24f5d51), key "
+         "count taken from the largest used column in OsuToSM / QuaToSM / O2JToSM (5e5686a), two-decimal #BPMS beats (6b5cf38), BMS "
+         "header (31e60b2) and sample-name (d05f0bf) crashes; three of them are _refuted theorems about the OLD written files with "
+         "_current twins on what the repaired tree writes. Four remain known findings: reseated tempo lists of StepMania / BMS "
+         "sources, the key count of BMS sources (no key-count attribute), duplicate O2Jam tempo at 0 in BMS, ':.3f' BMS tempos.",
     note="Trusted: Coq kernel+VM, the reference interpreters of the component properties, generator / serialiser / diagnose() of "
          "harness/props/c09.py, PyYAML and struct. corr is a composition of denotations, not of the component models (except in the "
-         "O2Jam -> Quaver theorem). Known findings are listed per pair in findings/C09.json and keep being generated; any other "
-         "violation raises. Not covered: scroll velocities and metadata through the pipeline (C08 checks the wiring), rolls / mines "
+         "O2Jam -> Quaver theorem). Known findings (14 keys) are listed per pair in findings/C09.json and keep being generated; any other "
+         "violation, including a recurrence of a fixed one, raises. Not covered: scroll velocities and metadata through the pipeline (C08 checks the wiring), rolls / mines "
          "dropped by SMTo*, BMS charts whose first tempo point is not at 0 ms (shifted by the writer; treated as outside the format).",
     technique="Coq proof (composition of C06/C07/C08 theorems) + reference interpreters evaluated by vm_compute on the implementation's files",
     design="4/C09, B")
@@ -1332,7 +1335,7 @@ def diagnose(case, out, k):
             return {"osu": "sm-offset-zero", "qua": "sm-offset-stack-min"}[a]
         if b == "bms" and len(st) == len(tt) and any(v1 != v2 for (_, v1), (_, v2) in zip(st, tt)):
             return "bms-bpm-3f-rounding"
-        if b == "sm" and _tempo_off_centibeat(st):
+        if b == "sm" and _tempo_off_centibeat(st) and _written_beats_2dp(v):
             return "sm-bpms-beat-2dp"
         return None
     # ---- O2Jam header tempo + tempo event at position 0, both written
@@ -1345,7 +1348,7 @@ def diagnose(case, out, k):
     if b == "sm" and st and tt and tt[0][0] != st[0][0] and a in ("osu", "qua"):
         present.append({"osu": "sm-offset-zero", "qua": "sm-offset-stack-min"}[a])     # #OFFSET is not the first tempo point
         dt = tt[0][0] - st[0][0]
-    if a == "sm" and b == "osu" and case["keys"] != 4:
+    if a == "sm" and b == "osu" and case["keys"] != 4 and _written_circle_size(v) != case["keys"]:
         present.append("osu-circle-size-default")                                       # SMToOsu leaves CircleSize at 4
         src = {"notes": [(kd, min(c, 3), t, ln) for (kd, c, t, ln) in stl["notes"]], "tempo": stl["tempo"]}
     if a in ("sm", "bms") and _tempo_off_line(case, k):
@@ -1359,7 +1362,7 @@ def diagnose(case, out, k):
         bnd0 = bnd
         bnd = lambda t, f=bnd0, d=drift: f(t) + d
         notes_only = notes_only or "relax-bpm"
-    if b == "sm" and len(st) > 1 and _tempo_off_centibeat(st):
+    if b == "sm" and len(st) > 1 and _tempo_off_centibeat(st) and _written_beats_2dp(v):
         present.append("sm-bpms-beat-2dp")                                              # tempo beats printed with two decimals
         slack = sum(Fr(1, 200) * abs(Fr(60000) / st[i][1] - Fr(60000) / st[i - 1][1]) for i in range(1, len(st)))
         slack += Fr(1, 200) * max(Fr(60000) / v for _, v in st)
@@ -1374,6 +1377,25 @@ def diagnose(case, out, k):
     else:
         ok = match(src, ttl, bnd, shift=sh, dt=dt) is None
     return present[0] if ok else None
+
+
+def _written_circle_size(lines):
+    for l in lines:
+        if l.startswith("CircleSize:"):
+            try:
+                return int(Fr(l.split(":", 1)[1].strip()))
+            except Exception:
+                return None
+    return None
+
+
+def _written_beats_2dp(text):
+    """every #BPMS beat of the written StepMania text has at most two decimals"""
+    try:
+        _, pairs, _ = sm_parse(text)
+    except Exception:
+        return False
+    return all((b * 100).denominator == 1 for b, _ in pairs)
 
 
 def _tempo_off_centibeat(st):
